@@ -26,6 +26,7 @@ type Thread struct {
 	waitWhat string
 	top      *frame
 	isTimer  bool
+	noSched  int               // >0: inside an atomic region (no scheduling points)
 	held     map[*syncObj]bool // locks held (lockset)
 	vc       map[int]int       // vector clock (happens-before for race check)
 }
@@ -220,7 +221,7 @@ func (st *State) enabled(t *Thread) bool {
 
 // schedPoint is called by the running thread before a visible operation.
 func (st *State) schedPoint(what string) {
-	if len(st.threads) == 1 {
+	if len(st.threads) == 1 || st.cur.noSched > 0 {
 		return
 	}
 	live := 0
@@ -241,6 +242,9 @@ func (st *State) block(cond func() bool, what string) {
 		return
 	}
 	t := st.cur
+	if t.noSched > 0 {
+		panic(unsupported("blocking operation (" + what + ") inside an atomic region"))
+	}
 	t.waitCond = cond
 	t.waitWhat = what
 	st.reschedule(true)
@@ -740,7 +744,7 @@ func (st *State) armTimer(tm *Timer, d int64) {
 	tm.fired = false
 	tm.deadline = st.now + d
 	gen := tm.gen
-	if st.eng.cfg.NoTimers {
+	if st.eng.cfg.NoTimers || (st.eng.cfg.TimerHorizonNs > 0 && d > st.eng.cfg.TimerHorizonNs) {
 		return
 	}
 	t := st.spawn(fmt.Sprintf("timer#%d.%d", tm.id, gen), func() {
